@@ -918,6 +918,585 @@ theorem load_no_overread (L : Layout ns) (sp : Model ns → Res Unit) (buf : Byt
                   | ok y => intro h; cases h
 
 
+/-! ## memory safety of the copying for checked dimensions -/
+
+theorem allocSizes_get (L : Layout ns) (s : Sizes ns) (i : Fin ns) :
+    (allocSizes L s)[i] = if i = L.mapIdx then (L.mapMul : Int) * mapSum L s else if i.val < L.nargs then s[i] else 0 := by
+  unfold allocSizes
+  simp [Vector.getElem_ofFn]
+
+theorem checkArgs_ok (L : Layout ns) (s : Sizes ns) : ∀ (names : List String) (i : Nat),
+    checkArgs L s i names = .ok () → ∀ k, k < names.length →
+      0 ≤ argVal L s (i + k) ∧ (argVal L s (i + k) < L.maxArray ∨ L.exemptMax.contains (i + k) = true)
+  | [], _, _, k, hk => by simp at hk
+  | nm :: rest, i, h, k, hk => by
+    simp only [checkArgs] at h
+    split at h
+    · cases h
+    · rename_i h0
+      split at h
+      · cases h
+      · rename_i h1
+        cases k with
+        | zero =>
+          refine ⟨by simpa using Int.not_lt.mp h0, ?_⟩
+          by_cases hm : argVal L s i < L.maxArray
+          · exact Or.inl (by simpa using hm)
+          · right
+            have : ¬ (¬ L.exemptMax.contains i = true) := fun hc => h1 ⟨Int.not_lt.mp hm, hc⟩
+            simpa using this
+        | succ k =>
+          have := checkArgs_ok L s rest (i + 1) h k (by simpa using hk)
+          have e : i + (k + 1) = i + 1 + k := by omega
+          rw [e]; exact this
+
+/-- per-pointer facts established by a successful allocation loop -/
+def AllocOK (sa : Sizes ns) : List (Ptr ns) → List Nat → Prop
+  | [], [] => True
+  | p :: ps, c :: cs => (0 ≤ sa[p.nr] ∧ 0 ≤ p.nc sa ∧ ((c : Nat) : Int) = p.bytes sa ∧ c < two63) ∧ AllocOK sa ps cs
+  | _, _ => False
+
+theorem safeAdd_facts {al esz off cap off' : Nat} {nr nc : Int}
+    (h : safeAdd al esz nr nc off = some (cap, off')) : 0 ≤ nr ∧ 0 ≤ nc ∧ cap < two63 := by
+  unfold safeAdd at h
+  split at h
+  · cases h
+  · rename_i hneg
+    split at h
+    · cases h
+    · split at h
+      · cases h
+      · simp only at h
+        split at h
+        · cases h
+        · split at h
+          · cases h
+          · rename_i h63
+            simp only [Option.some.injEq, Prod.mk.injEq] at h
+            obtain ⟨h1, _⟩ := h
+            refine ⟨by omega, by omega, ?_⟩
+            omega
+
+theorem allocLoop_facts (L : Layout ns) (sa : Sizes ns) :
+    ∀ (ps : List (Ptr ns)) (off : Nat) (caps : List Nat) (tot : Nat),
+      allocLoop L sa ps off = .ok (caps, tot) → AllocOK sa ps caps
+  | [], off, caps, tot, h => by
+    simp only [allocLoop, Res.ok.injEq, Prod.mk.injEq] at h
+    rw [← h.1]; trivial
+  | p :: ps, off, caps, tot, h => by
+    simp only [allocLoop] at h
+    split at h
+    · cases h
+    · rename_i cap off' hs
+      obtain ⟨r, hr, hr2⟩ := Res.bind_eq_ok h
+      simp only [Res.ok.injEq, Prod.mk.injEq] at hr2
+      rw [← hr2.1]
+      obtain ⟨f1, f2, f3⟩ := safeAdd_facts hs
+      refine ⟨⟨f1, f2, ?_, f3⟩, allocLoop_facts L sa ps off' r.1 r.2 (by rw [hr])⟩
+      rw [safeAdd_cap hs]; rfl
+
+
+/-- the byte count the read loop computes for `p` from sizes `s` is exactly the capacity `cap`
+    allocated for it (and below 2^63) -/
+def StepSafe (intMax : Int) (s : Sizes ns) (p : Ptr ns) (cap : Nat) : Prop :=
+  ∀ ncv, p.ncInt s intMax = .ok ncv → (p.esz : Int) * s[p.nr] * ncv = (cap : Int) ∧ cap < two63
+
+theorem ncInt_hazard_notCopy (intMax : Int) (s : Sizes ns) (p : Ptr ns) (u : Hazard) (h : p.ncInt s intMax = .hazard u) :
+    u.isCopy = false := by
+  unfold Ptr.ncInt at h
+  split at h
+  · cases h
+  · simp only at h
+    split at h
+    · simp only [Res.hazard.injEq] at h; subst h; rfl
+    · cases h
+
+theorem readStep_safe (intMax : Int) (len : Nat) (s : Sizes ns) (hlen : len ≤ 2147483647)
+    (p : Ptr ns) (c : Nat) (rest : Bytes) (hd : StepSafe intMax s p c) (hrest : rest.length ≤ len) :
+    (∀ u, readStep intMax len s p c rest = .hazard u → u.isCopy = false) ∧
+    ∀ a rest', readStep intMax len s p c rest = .ok (a, rest') → rest'.length ≤ len := by
+  cases hnc : p.ncInt s intMax with
+  | reject w =>
+    simp only [readStep, hnc, Res.reject_bind]
+    exact ⟨(by intro u h; cases h), (by intro a r h; cases h)⟩
+  | fatal w =>
+    simp only [readStep, hnc, Res.fatal_bind]
+    exact ⟨(by intro u h; cases h), (by intro a r h; cases h)⟩
+  | hazard v =>
+    simp only [readStep, hnc, Res.hazard_bind]
+    refine ⟨?_, (by intro a r h; cases h)⟩
+    intro u h
+    simp only [Res.hazard.injEq] at h
+    rw [← h]; exact ncInt_hazard_notCopy intMax s p v hnc
+  | ok ncv =>
+    obtain ⟨hB, h63⟩ := hd ncv hnc
+    simp only [readStep, hnc, Res.ok_bind, hB]
+    have hBn : (((c : Nat) : Int) % (two64 : Int)).toNat = c := by
+      rw [Int.emod_eq_of_lt (by omega) (by unfold two63 at h63; unfold two64; omega)]
+      simp
+    rw [hBn]
+    have hmod : (len - rest.length + c) % two64 = len - rest.length + c :=
+      Nat.mod_eq_of_lt (by unfold two63 at h63; unfold two64; omega)
+    rw [hmod]
+    split
+    · exact ⟨(by intro u h; cases h), (by intro a r h; cases h)⟩
+    · rename_i hfit
+      have hBsmall : c ≤ 2147483647 := by omega
+      rw [toI32_small hBsmall]
+      rw [if_neg (by omega), if_neg (by omega)]
+      simp only [Int.toNat_natCast]
+      have hrd : rdN rest c = some (rest.take c, rest.drop c) := by
+        unfold rdN; rw [if_pos (by omega)]
+      rw [hrd]
+      simp only
+      rw [if_neg (by omega)]
+      refine ⟨(by intro u h; cases h), ?_⟩
+      intro a rest' h
+      simp only [Res.ok.injEq, Prod.mk.injEq] at h
+      rw [← h.2, List.length_drop]; omega
+
+/-- the pointer / capacity lists are step-safe pairwise -/
+def StepsSafe (intMax : Int) (s : Sizes ns) : List (Ptr ns) → List Nat → Prop
+  | [], _ => True
+  | p :: ps, c :: cs => StepSafe intMax s p c ∧ StepsSafe intMax s ps cs
+  | _ :: _, [] => True
+
+theorem readArrays_safe (intMax : Int) (len : Nat) (s : Sizes ns) (hlen : len ≤ 2147483647) :
+    ∀ (ps : List (Ptr ns)) (cs : List Nat) (rest : Bytes),
+      StepsSafe intMax s ps cs → rest.length ≤ len →
+      ∀ u, readArrays intMax len s ps cs rest = .hazard u → u.isCopy = false
+  | [], _, _, _, _, u, h => by simp only [readArrays] at h; cases h
+  | _ :: _, [], _, _, _, u, h => by
+    simp only [readArrays, Res.hazard.injEq] at h; rw [← h]; rfl
+  | p :: ps, c :: cs, rest, hd, hrest, u, h => by
+    obtain ⟨h1, h2⟩ := readStep_safe intMax len s hlen p c rest hd.1 hrest
+    simp only [readArrays] at h
+    cases hs : readStep intMax len s p c rest with
+    | reject w => rw [hs] at h; cases h
+    | fatal w => rw [hs] at h; cases h
+    | hazard v =>
+      rw [hs] at h
+      simp only [Res.hazard_bind, Res.hazard.injEq] at h
+      rw [← h]; exact h1 v hs
+    | ok ar =>
+      rw [hs] at h
+      simp only [Res.ok_bind] at h
+      have ih := readArrays_safe intMax len s hlen ps cs ar.2 hd.2 (h2 ar.1 ar.2 hs)
+      cases hr : readArrays intMax len s ps cs ar.2 with
+      | reject w => rw [hr] at h; cases h
+      | fatal w => rw [hr] at h; cases h
+      | hazard v =>
+        rw [hr] at h
+        simp only [Res.hazard_bind, Res.hazard.injEq] at h
+        rw [← h]; exact ih v hr
+      | ok r => rw [hr] at h; cases h
+
+
+/-- every dimension of `p` is a checked positional parameter of `mj_makeModel`: the row count is a
+    parameter other than the computed `nnames_map`, and so is the `MJ_M(...)` column size, which is
+    moreover subject to the `< MAX_ARRAY_SIZE` test -/
+def Ptr.NcChecked (L : Layout ns) (p : Ptr ns) : Prop :=
+  ∀ j, p.ncS = some j → (j.val < L.nargs ∧ j ≠ L.mapIdx ∧ L.exemptMax.contains j.val = false)
+
+def Ptr.Checked (L : Layout ns) (p : Ptr ns) : Prop :=
+  (p.nr.val < L.nargs ∧ p.nr ≠ L.mapIdx) ∧ p.NcChecked L
+
+instance (L : Layout ns) (p : Ptr ns) : Decidable (p.NcChecked L) := by
+  unfold Ptr.NcChecked
+  cases h : p.ncS with
+  | none => exact isTrue (by intro j hj; cases hj)
+  | some j =>
+    exact decidable_of_iff (j.val < L.nargs ∧ j ≠ L.mapIdx ∧ L.exemptMax.contains j.val = false)
+      (by simp)
+
+instance (L : Layout ns) (p : Ptr ns) : Decidable (p.Checked L) := by unfold Ptr.Checked; infer_instance
+
+/-- layout conditions used by the memory-safety theorem -/
+structure Layout.WF2 (L : Layout ns) : Prop where
+  names : L.sizeNames.length = ns
+  maxArr : L.maxArray ≤ 2147483648
+
+theorem toI32_id {v : Int} (h0 : 0 ≤ v) (h1 : v < 2147483648) : toI32 v = v := by
+  unfold toI32
+  have : (v + 2147483648) % 4294967296 = v + 2147483648 := Int.emod_eq_of_lt (by omega) (by omega)
+  omega
+
+theorem stepSafe_of_checked (L : Layout ns) (hL : L.WF2) (s : Sizes ns)
+    (hca : checkArgs L s 0 L.sizeNames = .ok ()) (p : Ptr ns) (hnc : p.NcChecked L)
+    (hsa_nr : (allocSizes L s)[p.nr] = s[p.nr]) (c : Nat)
+    (hc : 0 ≤ (allocSizes L s)[p.nr] ∧ 0 ≤ p.nc (allocSizes L s) ∧ ((c : Nat) : Int) = p.bytes (allocSizes L s) ∧ c < two63) :
+    StepSafe L.intMax s p c := by
+  obtain ⟨_, _, hcap, h63⟩ := hc
+  intro ncv hncv
+  refine ⟨?_, h63⟩
+  unfold Ptr.bytes at hcap
+  rw [hcap, hsa_nr]
+  unfold Ptr.ncInt at hncv
+  unfold Ptr.nc
+  cases hj : p.ncS with
+  | none =>
+    simp only [hj, Res.ok.injEq] at hncv
+    rw [← hncv]
+  | some j =>
+    obtain ⟨hj1, hj2, hj3⟩ := hnc j hj
+    have hsa_j : (allocSizes L s)[j] = s[j] := by
+      rw [allocSizes_get, if_neg hj2, if_pos hj1]
+    have harg := checkArgs_ok L s L.sizeNames 0 hca j.val (by rw [hL.names]; exact j.isLt)
+    rw [Nat.zero_add] at harg
+    have hav : argVal L s j.val = s[j] := by
+      unfold argVal
+      rw [dif_pos ⟨hj1, j.isLt⟩]
+      rfl
+    rw [hav, hj3] at harg
+    have hlt : s[j] < L.maxArray := by
+      rcases harg.2 with h | h
+      · exact h
+      · cases h
+    have hmx := hL.maxArr
+    have hid : toI32 s[j] = s[j] := toI32_id harg.1 (by omega)
+    simp only [hj, hid] at hncv
+    split at hncv
+    · cases hncv
+    · simp only [Res.ok.injEq] at hncv
+      rw [← hncv]
+      simp only [hsa_j]
+
+theorem stepsSafe_of_checked (L : Layout ns) (hL : L.WF2) (s : Sizes ns)
+    (hca : checkArgs L s 0 L.sizeNames = .ok ()) :
+    ∀ (ps : List (Ptr ns)) (cs : List Nat), AllocOK (allocSizes L s) ps cs →
+      (∀ p ∈ ps, p.NcChecked L ∧ (allocSizes L s)[p.nr] = s[p.nr]) →
+      StepsSafe L.intMax s ps cs
+  | [], _, _, _ => trivial
+  | p :: ps, c :: cs, ha, hp =>
+    ⟨stepSafe_of_checked L hL s hca p (hp p (by simp)).1 (hp p (by simp)).2 c ha.1,
+     stepsSafe_of_checked L hL s hca ps cs ha.2 (fun q hq => hp q (by simp [hq]))⟩
+  | _ :: _, [], _, _ => trivial
+
+
+theorem refStep_notCopy (L : Layout ns) (r : Ref ns) (target : Int) (adrs : List Int) (nums : Option (List Int)) (i : Nat)
+    (u : Hazard) (h : refStep L r target adrs nums i = .hazard u) : u.isCopy = false := by
+  unfold refStep at h
+  split at h
+  · simp only [Res.hazard.injEq] at h; rw [← h]; rfl
+  · split at h
+    · simp only [Res.hazard.injEq] at h; rw [← h]; rfl
+    · split at h
+      · cases h
+      · split at h
+        · cases h
+        · split at h
+          · simp only [Res.hazard.injEq] at h; rw [← h]; rfl
+          · split at h
+            · cases h
+            · cases h
+
+theorem refLoop_notCopy (L : Layout ns) (r : Ref ns) (target : Int) (adrs : List Int) (nums : Option (List Int)) :
+    ∀ (todo i : Nat) (u : Hazard), refLoop L r target adrs nums i todo = .hazard u → u.isCopy = false
+  | 0, i, u, h => by simp only [refLoop] at h; cases h
+  | todo + 1, i, u, h => by
+    simp only [refLoop] at h
+    cases hs : refStep L r target adrs nums i with
+    | reject w => rw [hs] at h; cases h
+    | fatal w => rw [hs] at h; cases h
+    | hazard v =>
+      rw [hs] at h
+      simp only [Res.hazard_bind, Res.hazard.injEq] at h
+      rw [← h]; exact refStep_notCopy L r target adrs nums i v hs
+    | ok x =>
+      rw [hs] at h
+      exact refLoop_notCopy L r target adrs nums todo (i + 1) u h
+
+theorem validateRef_notCopy (L : Layout ns) (m : Model ns) (r : Ref ns) (u : Hazard)
+    (h : validateRef L m r = .hazard u) : u.isCopy = false := by
+  unfold validateRef at h
+  split at h
+  · simp only [Res.hazard.injEq] at h; rw [← h]; rfl
+  · cases hr : r.num with
+    | none =>
+      simp only [hr, Res.ok_bind] at h
+      exact refLoop_notCopy L r _ _ _ _ _ u h
+    | some k =>
+      simp only [hr] at h
+      split at h
+      · simp only [Res.hazard_bind, Res.hazard.injEq] at h; rw [← h]; rfl
+      · simp only [Res.ok_bind] at h
+        exact refLoop_notCopy L r _ _ _ _ _ u h
+
+theorem validateTable_notCopy (L : Layout ns) (m : Model ns) : ∀ (rs : List (Ref ns)) (u : Hazard),
+    validateTable L m rs = .hazard u → u.isCopy = false
+  | [], u, h => by simp only [validateTable] at h; cases h
+  | r :: rs, u, h => by
+    simp only [validateTable] at h
+    cases hs : validateRef L m r with
+    | reject w => rw [hs] at h; cases h
+    | fatal w => rw [hs] at h; cases h
+    | hazard v =>
+      rw [hs] at h
+      simp only [Res.hazard_bind, Res.hazard.injEq] at h
+      rw [← h]; exact validateRef_notCopy L m r v hs
+    | ok x =>
+      rw [hs] at h
+      exact validateTable_notCopy L m rs u h
+
+theorem readBlobs_no_hazard : ∀ (spec : List (String × Nat)) (rest : Bytes) (u : Hazard),
+    readBlobs spec rest ≠ .hazard u
+  | [], rest, u => by simp only [readBlobs]; intro h; cases h
+  | (nm, n) :: spec, rest, u => by
+    simp only [readBlobs]
+    cases hrd : rdN rest n with
+    | none => intro h; cases h
+    | some ar =>
+      simp only
+      cases hr : readBlobs spec ar.2 with
+      | reject w => intro h; cases h
+      | fatal w => intro h; cases h
+      | hazard v => exact absurd hr (readBlobs_no_hazard spec ar.2 v)
+      | ok r => intro h; cases h
+
+/-- **Memory safety of the loader's copying.**  If every `MJ_M(...)` column size of the layout is a
+    checked `mj_makeModel` parameter, then for EVERY buffer (of a length an `int` can hold) in which the
+    row-count fields agree with what `mj_makeModel` allocated with, the loader never reads past the
+    end of the buffer and never copies more bytes into a model array than were allocated for it. -/
+theorem load_copy_safe_of_rows (L : Layout ns) (hL : L.WF2) (hnc : ∀ p ∈ L.ptrs, p.NcChecked L)
+    (sp : Model ns → Res Unit) (hsp : ∀ m u, sp m = .hazard u → u.isCopy = false)
+    (buf : Bytes) (hlen : buf.length ≤ 2147483647)
+    (hrows : ∀ s rest, loadSizes L buf = .ok (s, rest) → ∀ p ∈ L.ptrs, (allocSizes L s)[p.nr] = s[p.nr]) :
+    ∀ u, load L sp buf = .hazard u → u.isCopy = false := by
+  intro u h
+  obtain ⟨hs1, hs2⟩ := loadSizes_facts L buf
+  unfold load at h
+  cases hls : loadSizes L buf with
+  | reject w => rw [hls] at h; cases h
+  | fatal w => rw [hls] at h; cases h
+  | hazard v => exact absurd hls (hs1 v)
+  | ok sr =>
+    rw [hls] at h
+    simp only [Res.ok_bind] at h
+    have hr2 := hs2 sr.1 sr.2 hls
+    unfold loadBody at h
+    cases hmk : makeModel L sr.1 with
+    | reject w => rw [hmk] at h; cases h
+    | fatal w => rw [hmk] at h; cases h
+    | hazard v => exact absurd hmk (makeModel_not_hazard L _ v)
+    | ok al =>
+      rw [hmk] at h
+      simp only at h
+      -- facts from the successful mj_makeModel
+      have hfacts : checkArgs L sr.1 0 L.sizeNames = .ok () ∧ AllocOK (allocSizes L sr.1) L.ptrs al.caps := by
+        unfold makeModel at hmk
+        obtain ⟨x, hx, hmk⟩ := Res.bind_eq_ok hmk
+        cases x
+        refine ⟨hx, ?_⟩
+        split at hmk
+        · cases hmk
+        · split at hmk
+          · cases hmk
+          · obtain ⟨r, hr, hr2'⟩ := Res.bind_eq_ok hmk
+            simp only [Res.ok.injEq] at hr2'
+            rw [← hr2']
+            exact allocLoop_facts L _ L.ptrs 0 r.1 r.2 (by rw [hr])
+      have hsafe := stepsSafe_of_checked L hL sr.1 hfacts.1 L.ptrs al.caps hfacts.2
+        (fun p hp => ⟨hnc p hp, hrows sr.1 sr.2 hls p hp⟩)
+      split at h
+      · cases h
+      · split at h
+        · cases h
+        · obtain ⟨_, hb2⟩ := readBlobs_facts L.blobs sr.2
+          cases hrb : readBlobs L.blobs sr.2 with
+          | reject w => rw [hrb] at h; cases h
+          | fatal w => rw [hrb] at h; cases h
+          | hazard v => exact absurd hrb (readBlobs_no_hazard _ _ v)
+          | ok br =>
+            rw [hrb] at h
+            simp only [Res.ok_bind] at h
+            have hbl := hb2 br.1 br.2 hrb
+            have hra := readArrays_safe L.intMax buf.length sr.1 hlen L.ptrs al.caps br.2 hsafe (by omega)
+            cases hr : readArrays L.intMax buf.length sr.1 L.ptrs al.caps br.2 with
+            | reject w => rw [hr] at h; cases h
+            | fatal w => rw [hr] at h; cases h
+            | hazard v =>
+              rw [hr] at h
+              simp only [Res.hazard_bind, Res.hazard.injEq] at h
+              rw [← h]; exact hra v hr
+            | ok ar =>
+              rw [hr] at h
+              simp only [Res.ok_bind] at h
+              split at h
+              · cases h
+              · unfold validate at h
+                cases hvt : validateTable L { sizes := sr.1, blobs := br.1, arrays := ar.1 } L.refs with
+                | reject w => rw [hvt] at h; cases h
+                | fatal w => rw [hvt] at h; cases h
+                | hazard v =>
+                  rw [hvt] at h
+                  simp only [Res.hazard_bind, Res.hazard.injEq] at h
+                  rw [← h]; exact validateTable_notCopy L _ _ v hvt
+                | ok x =>
+                  rw [hvt] at h
+                  simp only [Res.ok_bind] at h
+                  cases hspm : sp { sizes := sr.1, blobs := br.1, arrays := ar.1 } with
+                  | reject w => rw [hspm] at h; cases h
+                  | fatal w => rw [hspm] at h; cases h
+                  | hazard v =>
+                    rw [hspm] at h
+                    simp only [Res.hazard_bind, Res.hazard.injEq] at h
+                    rw [← h]; exact hsp _ v hspm
+                  | ok y => rw [hspm] at h; cases h
+
+
+/-- **Layouts without unchecked dimensions are memory safe on every buffer.** -/
+theorem load_copy_safe (L : Layout ns) (hL : L.WF2) (hall : ∀ p ∈ L.ptrs, p.Checked L)
+    (sp : Model ns → Res Unit) (hsp : ∀ m u, sp m = .hazard u → u.isCopy = false)
+    (buf : Bytes) (hlen : buf.length ≤ 2147483647) :
+    ∀ u, load L sp buf = .hazard u → u.isCopy = false :=
+  load_copy_safe_of_rows L hL (fun p hp => (hall p hp).2) sp hsp buf hlen
+    (fun s _ _ p hp => by
+      obtain ⟨⟨h1, h2⟩, _⟩ := hall p hp
+      rw [allocSizes_get, if_neg h2, if_pos h1])
+
+
+/-! ## the special logic never copies -/
+
+/-- `x` never ends in a copying hazard -/
+def NoCopy {α : Type} (x : Res α) : Prop := ∀ u, x = .hazard u → u.isCopy = false
+
+theorem NoCopy.ok {α : Type} (a : α) : NoCopy (Res.ok a) := by intro u h; cases h
+theorem NoCopy.pure {α : Type} (a : α) : NoCopy (pure a : Res α) := by intro u h; cases h
+theorem NoCopy.reject {α : Type} (w : String) : NoCopy (Res.reject w : Res α) := by intro u h; cases h
+theorem NoCopy.fatal {α : Type} (w : String) : NoCopy (Res.fatal w : Res α) := by intro u h; cases h
+theorem NoCopy.hazard {α : Type} {u : Hazard} (hu : u.isCopy = false) : NoCopy (Res.hazard u : Res α) := by
+  intro v h; simp only [Res.hazard.injEq] at h; rw [← h]; exact hu
+
+theorem NoCopy.rbind {α β : Type} {x : Res α} {f : α → Res β} (hx : NoCopy x) (hf : ∀ a, NoCopy (f a)) :
+    NoCopy (x.bind f) := by
+  intro u h
+  cases x with
+  | ok a => exact hf a u h
+  | reject w => cases h
+  | fatal w => cases h
+  | hazard v => simp only [Res.hazard_bind, Res.hazard.injEq] at h; rw [← h]; exact hx v rfl
+
+theorem NoCopy.bind {α β : Type} {x : Res α} {f : α → Res β} (hx : NoCopy x) (hf : ∀ a, NoCopy (f a)) :
+    NoCopy (x >>= f) := NoCopy.rbind hx hf
+
+theorem NoCopy.ite {α : Type} {c : Prop} [Decidable c] {a b : Res α} (ha : NoCopy a) (hb : NoCopy b) :
+    NoCopy (if c then a else b) := by
+  split <;> assumption
+
+namespace Special
+
+theorem sizeByName_nc (c : Ctx ns) (n : String) : NoCopy (sizeByName c n) := by
+  unfold sizeByName
+  split
+  · split
+    · exact NoCopy.ok _
+    · exact NoCopy.hazard rfl
+  · exact NoCopy.hazard rfl
+
+theorem arr_nc (c : Ctx ns) (n : String) : NoCopy (arr c n) := by
+  unfold arr
+  split
+  · exact NoCopy.hazard rfl
+  · split
+    · exact NoCopy.hazard rfl
+    · exact NoCopy.ok _
+
+theorem get_nc (a : List Int) (i : Int) (w : String) : NoCopy (get a i w) := by
+  unfold get
+  split
+  · exact NoCopy.hazard rfl
+  · split
+    · exact NoCopy.ok _
+    · exact NoCopy.hazard rfl
+
+theorem check_nc (c : Prop) [Decidable c] (m : String) : NoCopy (check c m) := by
+  unfold check; split
+  · exact NoCopy.reject _
+  · exact NoCopy.ok _
+
+theorem ub_nc (c : Prop) [Decidable c] {u : Hazard} (hu : u.isCopy = false) : NoCopy (ub c u) := by
+  unfold ub; split
+  · exact NoCopy.hazard hu
+  · exact NoCopy.ok _
+
+theorem forLoop_nc {f : Nat → Res Unit} (hf : ∀ i, NoCopy (f i)) : ∀ (todo i : Nat), NoCopy (forLoop f i todo)
+  | 0, _ => NoCopy.ok _
+  | todo + 1, i => by
+    simp only [forLoop]
+    exact NoCopy.rbind (hf i) (fun _ => forLoop_nc hf todo (i + 1))
+
+theorem forN_nc {f : Nat → Res Unit} (n : Int) (hf : ∀ i, NoCopy (f i)) : NoCopy (forN n f) := by
+  unfold forN; exact forLoop_nc hf _ _
+
+theorem forLoopCount_nc {f : Nat → Res Bool} (hf : ∀ i, NoCopy (f i)) : ∀ (todo b acc : Nat), NoCopy (forLoopCount f b todo acc)
+  | 0, _, _ => NoCopy.ok _
+  | todo + 1, b, acc => by
+    simp only [forLoopCount]
+    exact NoCopy.rbind (hf b) (fun _ => forLoopCount_nc hf todo (b + 1) _)
+
+theorem numObjectsOf_nc (S : Special) (c : Ctx ns) (t : Int) : NoCopy (numObjectsOf S c t) := by
+  unfold numObjectsOf
+  split
+  · exact NoCopy.ok _
+  · exact sizeByName_nc _ _
+  · exact NoCopy.ok _
+
+end Special
+attribute [irreducible] NoCopy
+namespace Special
+
+macro "nocopy" : tactic => `(tactic|
+  repeat' (first
+    | intro _
+    | exact NoCopy.ok _
+    | exact NoCopy.pure _
+    | exact NoCopy.reject _
+    | exact NoCopy.fatal _
+    | exact NoCopy.hazard rfl
+    | exact sizeByName_nc _ _
+    | exact arr_nc _ _
+    | exact get_nc _ _ _
+    | exact check_nc _ _
+    | exact ub_nc _ rfl
+    | exact numObjectsOf_nc _ _ _
+    | apply forN_nc
+    | apply forLoopCount_nc
+    | apply NoCopy.bind
+    | apply NoCopy.rbind
+    | apply NoCopy.ite))
+
+theorem bodies_nc (c : Ctx ns) : NoCopy (bodies c) := by unfold bodies; nocopy
+theorem joints_nc (S : Special) (c : Ctx ns) : NoCopy (joints S c) := by unfold joints; nocopy
+theorem dofs_nc (c : Ctx ns) : NoCopy (dofs c) := by unfold dofs; nocopy
+theorem geoms_nc (S : Special) (c : Ctx ns) : NoCopy (geoms S c) := by unfold geoms; nocopy
+theorem hfields_nc (S : Special) (c : Ctx ns) : NoCopy (hfields S c) := by unfold hfields; nocopy
+theorem textures_nc (S : Special) (c : Ctx ns) : NoCopy (textures S c) := by unfold textures; nocopy
+theorem signature_nc (c : Ctx ns) (a b w : String) : NoCopy (signature c a b w) := by unfold signature; nocopy
+theorem equalities_nc (S : Special) (c : Ctx ns) : NoCopy (equalities S c) := by unfold equalities; nocopy
+theorem wraps_nc (S : Special) (c : Ctx ns) : NoCopy (wraps S c) := by unfold wraps; nocopy
+theorem actuators_nc (S : Special) (c : Ctx ns) : NoCopy (actuators S c) := by unfold actuators; nocopy
+theorem sensors_nc (S : Special) (c : Ctx ns) : NoCopy (sensors S c) := by unfold sensors; nocopy
+theorem tuples_nc (S : Special) (c : Ctx ns) : NoCopy (tuples S c) := by unfold tuples; nocopy
+
+theorem run_nc (S : Special) (c : Ctx ns) : NoCopy (run S c) := by
+  unfold run
+  repeat' (first
+    | intro _
+    | exact bodies_nc _ | exact joints_nc _ _ | exact dofs_nc _ | exact geoms_nc _ _ | exact hfields_nc _ _
+    | exact textures_nc _ _ | exact signature_nc _ _ _ _ | exact equalities_nc _ _ | exact wraps_nc _ _
+    | exact actuators_nc _ _ | exact sensors_nc _ _ | exact tuples_nc _ _
+    | apply NoCopy.bind)
+
+end Special
+
+/-- the special logic of the tree never ends in a copying hazard (it only reads the model) -/
+theorem specialOf_noCopy (L : Layout ns) (S : Special) (m : Model ns) (u : Hazard)
+    (h : specialOf L S m = .hazard u) : u.isCopy = false := by
+  have := Special.run_nc S { L := L, m := m }
+  unfold NoCopy at this
+  exact this u h
+
+
 /-! ## the executable consistency check is sound -/
 
 theorem lensOKB_sound (s : Sizes ns) : ∀ (ps : List (Ptr ns)) (as : List Bytes), lensOKB s ps as = true → LensOK s ps as
